@@ -28,7 +28,7 @@ def swarm_faults(cfg, base_s, tf_s, allowed=FEED_KINDS, p_enable=0.5, halt_bucke
         faults["halt"] = {"p": cfg.choice((0.01, 0.03)), "min": 3 * per_bucket,
                           "max": cfg.choice(halt_buckets) * per_bucket}
     if "dup" in kinds:
-        faults["dup"] = {"p": cfg.choice((0.03, 0.1))}
+        faults["dup"] = {"p": cfg.choice((0.03, 0.1)), "exact": cfg.choice((0.0, 0.3, 0.6))}
     if "jitter" in kinds:
         faults["jitter"] = {"p": cfg.choice((0.05, 0.3))}
     if "offset" in kinds and base_s > 1:
